@@ -279,6 +279,9 @@ mod macros;
 pub use self::common::*;
 
 mod cow;
+#[cfg(metrics_verif)]
+#[doc(hidden)]
+pub use self::cow::Cow as VerifCow;
 
 mod handles;
 pub use self::handles::*;
